@@ -285,6 +285,23 @@ def run(ctx):
                   distinct_content_disposition_headers_checked=len(headers), filename_classes=len(FILENAMES))
     ctx.sample({"kind": "TLC behaviour replayed (actions)", "actions": [x["last"] for x in hists[0]]})
     ctx.sample({"kind": "Content-Disposition headers produced by the real code", "headers": sorted(headers)[:8]})
+    # ---- beyond the listed property: the render request end to end (spec/RenderFlow.tla)
+    from harness import renderflow
+    rf, rf_states, rf_trans = renderflow.model_check(ctx, quick)
+    traces, raw = renderflow.record_scenarios(ctx)
+    rres, rejected = renderflow.validate(ctx, traces)
+    if rejected:
+        tr = traces[int(rejected["tid"]) - 1]
+        l = int(rejected["l"])
+        evn = tr[min(l, len(tr)) - 1]
+        ctx.violation("render flow: %s at event %s" % (rejected["kind"], evn.get("op")),
+                      "the calls made by nserve.do_render / qs.slave.Worker / nslave.Commands are not a behaviour of "
+                      "RenderFlow.tla (makezip before render; a render worker waits for the makezip job and fails when "
+                      "it failed)", {"trace": tr, "rejected": rejected, "observed_calls": raw})
+    ctx.cover(states=rf_states, transitions=rf_trans, traces_validated_against_impl=len(traces) if not rejected else 0)
+    ctx.set_cover(render_flow_model=rf, render_flow_scenarios=len(traces))
+    ctx.sample({"kind": "observed calls of the real render worker (nslave.Commands.rpc_render via qs.slave.Worker.dispatch)",
+                "calls": raw[1]})
     ctx.assume("header safety is a character-level predicate evaluated by the harness on concrete filenames, not by TLC",
                "the RPC layer is replaced by an in-process proxy with a JSON round trip",
                "assumptions of C16-C18 about the queue driver")
